@@ -185,7 +185,7 @@ def rule_stats_err_map(F, ev, R, config, rule="R-STATS-ERR-MAP"):
                 if isinstance(vals, bool) and (vals != neg):
                     have["successful"] = True
             if term[0] == "discr":
-                variants, _, _ = discr_variants(b, sw["block"])
+                variants, _, _ = discr_variants(sw.get("body", b), sw["block"])
                 names = dict(variants or [])
                 vs = [names.get(v) for v in vals if v != "otherwise"] if isinstance(vals, tuple) else []
                 inner = term[1]
